@@ -2648,6 +2648,13 @@ func (dsc *dataStoreCommand) setOperationStore(
 		return
 	}
 
+	if d.count == 0 {
+		// an empty result deletes the destination: a set never exists empty
+		dsc.ds.data.remove(destination)
+		output.data = respInt(0)
+		return
+	}
+
 	newSk := dsc.ds.newStoreKeyUnlocked(destination)
 	newSk.flags = FLAG_KEY_TYPE_SET
 	newSk.payload = d
